@@ -42,7 +42,9 @@ func driveConc(seed uint64, n int, size int, em *Emitter) {
 	r := NewRng(seed)
 	initHost()
 	frameAspects = map[common.Address]*aspectScript{}
-	curProvider = func(ctx context.Context, c common.Address, pc atypes.PointCut) ([]*atypes.AspectCode, error) { return nil, nil }
+	curProvider = func(ctx context.Context, c common.Address, pc atypes.PointCut) ([]*atypes.AspectCode, error) {
+		return nil, nil
+	}
 	const workers = 8
 	for b := 0; b < n; b++ {
 		em.Reset(fmt.Sprintf("conc-%d-%d", seed, b))
